@@ -116,7 +116,8 @@ check("C16", level="model_checking", engine="ix",
 
 check("C13", level="model_checking", engine="ix",
       technique="bounded-exhaustive token-string enumeration per input format on the real parsers/loaders under ASan+UBSan, forked workers with watchdog",
-      text="For each of 11 input formats (manifest, depfile, dyndep, .ninja_log, .ninja_deps behind a valid header, "
+      text="For each of 14 input formats (manifest, manifest includes, depfile, depfile through the dependency scan, dyndep, "
+           ".ninja_log tokens and whole records with extreme field values through NinjaMain, .ninja_deps behind a valid header, "
            "/showIncludes text, MAKEFLAGS, NINJA_STATUS, --status, ElideMiddle, CanonicalizePath) every token string up to "
            "the stated length is processed by the real code in a sanitizer build; plus a list of structural stress cases "
            "(self-including manifests, deep nesting, variable cycles, oversized records/lines). Any sanitizer report, abort, "
@@ -125,7 +126,8 @@ check("C13", level="model_checking", engine="ix",
            "alphabets and lengths reported in the evidence; long random inputs are outside this family.", design_ref="5/C13")
 check("C15", level="model_checking", engine="ix",
       technique="bounded-exhaustive name x layout enumeration, reference encoder (GCC/Clang quoting) vs the real DepfileParser",
-      text="Every representable name up to length 4 (quick) / 5 (thorough) over a 9-symbol alphabet of special characters, in "
+      text="Every representable name (incl. names ending in an even run of backslashes) up to length 4 (quick) / 5 (thorough) over "
+           "an 11-symbol alphabet of special characters, in "
            "4 placements and every ordered pair of names up to length 3, each in 7 layouts, with and without escaped colons; "
            "the real parser must return exactly the encoded names, each dependency once, targets and dependencies apart; "
            "depfiles without ':' and dependencies re-used as targets with dependencies must be rejected.",
@@ -137,8 +139,9 @@ check("C18", level="model_checking", engine="nx",
            "incl. the built-in phony, cleandead; with and without -n) is executed through ninja's real main; the set of "
            "deleted files must equal the reference scope restricted to existing files, -n must delete nothing and list the "
            "same set, and the following build must satisfy the clean-build oracle.",
-      note=NX_NOTE + " The generator exemption is checked for the no-argument scope as the manual defines it; explicit "
-           "target/rule scopes include generator statements.", design_ref="5/C18")
+      note=NX_NOTE + " Generator outputs are outside every scope without -g, as the property states (ninja's target and rule forms ignore "
+           "-g: known finding F48). Shapes include subninja scopes with shadowed rule names, builddir projects, dyndep files that "
+           "claim foreign outputs, generator bound in the build block.", design_ref="5/C18")
 check("C19", level="model_checking", engine="nx",
       technique="explicit-state BFS over tree/log states x every read-only tool and -n through the real front end; before/after world comparison, differential next build, prediction and JSON oracles",
       text="From every world reached in the tool templates, -n and each read-only tool is executed through ninja's real "
@@ -146,13 +149,15 @@ check("C19", level="model_checking", engine="nx",
            "identical to the one from the untouched world, -n predicts the real build's commands (superset under restat "
            "pruning) in dependency order, -t commands lists the closure in dependency order, compdb output is strict JSON "
            "for every byte a manifest can carry.",
-      note=NX_NOTE + " Directories created by a dry run's MakeDirs are recorded but not judged (DESIGN.md 5/C19).",
+      note=NX_NOTE + " Directories count (a dry run creates none); only ninja's own builddir, created by every tool that loads the logs, is "
+           "not judged, and a pending log recompaction is not part of the logs' meaning. compdb must also be valid UTF-8 (F51), "
+           "compdb -x is run with the response file named at every small offset, targets may be named relative to $builddir.",
       design_ref="5/C19")
 
 check("C17", level="model_checking", engine="nx",
       technique="exhaustive enumeration of small graphs x targets (scan) and schedule DFS for mid-build dyndep cases on the real scanner/planner; reference cycle search on the effective graph",
-      text="Every 3-statement manifest with <= 1 input per statement (quick; <= 2 inputs over explicit+validation in "
-           "thorough) over 4 input kinds x every single target and the default, plus templates for every way a cycle can "
+      text="Every 3-statement manifest with <= 1 input per statement over 4 input kinds and with <= 2 inputs over explicit+"
+           "validation (thorough adds implicit+order-only and explicit+order-only) x every single target and the default, plus templates for every way a cycle can "
            "be closed (manifest, depfile, deps log gcc/msvc, dyndep inputs and outputs present at start or produced "
            "mid-build under every schedule, phony, multi-output, validations): cyclic => a 'dependency cycle' error that "
            "spells a real cycle, no command of it starts, exit != 0; acyclic => never rejected; never a hang.",
@@ -162,15 +167,18 @@ check("C17", level="model_checking", engine="nx",
 check("C10", level="model_checking", engine="nx",
       technique="explicit-state BFS over histories x exhaustive schedule DFS, lock-step metamorphic twin (discovered vs declared dependencies)",
       text="For depfile / deps=gcc / deps=msvc consumers with source headers, generated headers with and without a manifest "
-           "path and restat-generated headers, every history up to the depth bound is run on the scenario and on its twin "
+           "path, restat-generated headers, two-level generation, two consumers, two-output consumers in a pool, nested discovery, "
+           "a consumer reached as a validation, compiler spellings (./gen.h) and a restat consumer whose reported list grows, "
+           "every history up to the depth bound (5 quick / 6 thorough) is run on the scenario and on its twin "
            "with the same dependencies declared as implicit inputs: equal started sets and success per invocation (every "
            "schedule), ordering after the producers of discovered dependencies, clean-build final state; the permitted "
            "difference (a vanished discovered dependency rebuilds instead of failing) is modelled.",
       note=NX_NOTE, design_ref="5/C10")
 check("C11", level="model_checking", engine="nx",
       technique="explicit-state BFS over histories x exhaustive schedule DFS, lock-step metamorphic twin (dyndep vs inlined manifest); exhaustive invalid-variant and every-byte truncation enumeration against a reference reader",
-      text="Valid side: six dyndep shapes (existing/produced file, added inputs, implicit outputs, restat, shared file, two "
-           "levels) are explored in lock step with the inlined twin: equal started sets and success on every schedule, "
+      text="Valid side: dyndep shapes (existing/produced file, added inputs incl. source files, implicit outputs incl. a long "
+           "log history, restat, shared file, two levels, validations, order-only behind a discovered input, dyndep file named "
+           "twice, file loaded from inside the bookkeeping of the statement it names; depth 6 quick / 7 thorough) are explored in lock step with the inlined twin: equal started sets and success on every schedule, "
            "ordering after producers of dyndep-supplied inputs, clean-build final state. Invalid side: every structural "
            "mutation and every truncation offset that the reference reader classifies as not a valid complete description, "
            "pre-existing and produced mid-build, must make the build fail.",
@@ -184,8 +192,10 @@ check("C20", level="model_checking", engine="nx",
            "captured transcript is parsed: each command's visible output exactly once, contiguous, directly after its status "
            "line (failed: FAILED [code] outputs + command line first), nothing between a console command's status line and "
            "its own output, counters within bounds and finished = total after success.",
-      note=NX_NOTE + " Dumb terminal only; command output is delivered whole at completion; the smart-terminal path and "
-           "output arriving in pieces through real pipes are not covered by this engine.", design_ref="5/C20")
+      note=NX_NOTE + " Command output is delivered whole at completion (output arriving in pieces through real pipes is not covered). "
+           "Every schedule and fault set runs with piped output and, through an isatty/TIOCGWINSZ seam, with stdout as a 50-column "
+           "terminal; there the oracle rebuilds the screen (CR, LF, erase-line, control sequences) and requires every finished "
+           "command's output to be visible whole."", design_ref="5/C20")
 
 check("C12", level="model_checking", engine="ix",
       technique="bounded-exhaustive program families evaluated by an independent reference evaluator of the manifest language and by the real ManifestParser; canonical graph comparison",
@@ -195,7 +205,8 @@ check("C12", level="model_checking", engine="ix",
            "equal canonical graph dumps (pools, defaults, per statement outputs, input kinds, validations, pool and every "
            "evaluated rule variable), agreeing rejections with file:line. Readings the manual leaves open are all accepted.",
       note="Trusted base: lib/refmanifest.py (reference evaluator), lib/family_manifest.py, src/ix/manifest.cc (dump). "
-           "$^ and ninja_required_version handling are outside the families.", design_ref="5/C12")
+           "Families include ninja_required_version / $^ across a parent and two included files, file-level reserved variables, "
+           "empty rule-level bindings, rule-level pool with $in/$out, and what a plain ninja builds by default (root nodes).", design_ref="5/C12")
 
 ALL = ["C%02d" % i for i in range(1, 21)]
 
